@@ -44,6 +44,7 @@ func genCfg(r *Run, odd bool, i int) hCfg {
 		// "for all header/preamble configurations": the same header name for both tokens loads fine
 		c.Access, c.AccHeader = true, c.IDHeader
 	}
+	c.Debug = rng.Intn(3) == 0
 	if rng.Intn(3) == 0 {
 		// the real key source (DefaultJWKSProvider) on the filter's own configuration: inline JWKS or a fetched one
 		c.RealKeys = pick(rng, []string{"static", "fetcher"})
@@ -59,7 +60,7 @@ func genCfg(r *Run, odd bool, i int) hCfg {
 		c.IDPreamble = pick(rng, []string{"Bearer", "", "Be arer"})
 		// every prefix the real loader accepts is fair game ("for all cookie-name prefixes"); one it rejects cannot reach a
 		// running service and is replaced
-		c.Prefix = pick(rng, []string{"app.1", "A~b!", "x;y", "a b", "a=b", "x; Domain=evil.example", "ü", "tab\tbed", "p|q^r", "$%&'*+-.^_`|~", "(x)"})
+		c.Prefix = pick(rng, []string{"app.1", "A~b!", "x;y", "a b", "a=b", "x; Domain=evil.example", "ü", "tab\tbed", "p|q^r", "$%&'*+-.^_`|~", "(x)", "__Host-x", "__host-app", "__HOST-App", "__Secure-y", "-", "Host"})
 		if !loaderAcceptsPrefix(c.Prefix) {
 			r.Dist["prefix:rejected-by-loader"]++
 			c.Prefix = "app1"
@@ -131,7 +132,7 @@ func (g *histGen) idpForSession(nonce string, login bool, sid string) idpAnswer 
 	case 1:
 		spec.Aud = []string{c.ClientID}
 	}
-	a := idpAnswer{Kind: "body", TokenType: pick(rng, []string{"Bearer", "bearer", "BEARER", "bEaReR"}), Access: g.s.uniq("ACCESS-marker"), Extra: rng.Intn(2) == 0}
+	a := idpAnswer{Kind: "body", TokenType: pick(rng, []string{"Bearer", "bearer", "BEARER", "bEaReR"}), Access: g.s.uniq("ACCESS-marker"), Extra: rng.Intn(2) == 0, Big: rng.Intn(5) == 0}
 	switch rng.Intn(4) {
 	case 0: // no expires_in
 	case 1:
